@@ -111,8 +111,16 @@ CLAIMS = [
                 "rc_check_implies_hp_check: an unchanged counter implies an unchanged hashpower along every schedule; never_stored_twice. "
                 "K3 replays recorded traces of /repo through the acceptor and explores 2-3 thread programs (crafted + random high-contention) with "
                 "preemption-bounded and random schedules, checking each history for linearizability, final contents and structure. "
-                "ASSUMED, not mechanised: that a lock-protected block of the real code is atomic on the current table (the protocol theorems + the "
-                "classical two-phase-locking reduction); locked_table sections and helper threads are not part of Conc.",
+                "Props/C01Red.lean (reduction, mechanised): Model/Fine.lean refines the protocol to single data accesses (read/write of a location, "
+                "allowed exactly when Proto.accept allows `access` of its guarding stripe in the CURRENT lock array; rule T: no acquire/append after the first "
+                "release of a hold). For EVERY accepted fine-grained trace (any threads, any interleaving of individual accesses, partial releases, lock_all, "
+                "lock-array growth, locked_table sections) the committed holds executed one after the other, each atomically, in commit order, read exactly the "
+                "values read concurrently (episodes_serializable), end in the concurrent memory (quiescent_memory_eq), give every thread its own access "
+                "sequence hold by hold (thread_view_preserved, episode_is_one_hold, episode_accs) and respect real time (commit_order_respects_real_time). "
+                "K3 replays every recorded trace of /repo through Fine.accept as well (rule T on the real code). "
+                "STILL ASSUMED: that the block of code between lock and unlock, run atomically, computes the section function of Model/Conc.lean and "
+                "touches only locations guarded by its stripes (tied by K2/K3 section replay and the lockset monitor, not proved); helper threads are not part of Conc; "
+                "locked_table sections are atomic steps in Props/C06Conc.lean.",
         "design_ref": "DESIGN.md 6/C01, 12",
         "note": "Trusted: Lean kernel; hooks + baton scheduler + C++ linearizability search (K3); the scheduler yields sequentially consistent executions only; "
                 "the correspondence between Conc's sections and the code's critical sections rests on K2 (same primitive functions) and K3, not on a generated skeleton.",
@@ -126,7 +134,9 @@ CLAIMS = [
                 "serialised (no lost update) and a reader sees before-or-after (no torn read). sync_orders_sufficient (decide over Gen/MemOrder.lean, "
                 "regenerated from the IR with a text cross-check): lock = acq_rel RMW, unlock = release, hashpower/resize-counter loads acquire, every "
                 "publication (hashpower store, all three counter bumps, lazy-counter store) release, lazy decrement acq_rel. K3 checks on the real code "
-                "that every bucket access / functor call / metadata access happens under the right stripe of the current array. PARTIAL: the data-race "
+                "that every bucket access / functor call / metadata access happens under the right stripe of the current array. Props/C01Red.lean lifts the "
+                "exclusion to data: in every fine-grained execution (single reads/writes interleaved arbitrarily) each hold is atomic — every read returns what the "
+                "serial, hold-by-hold execution returns, so n read-modify-write updates of one key are all applied and no reader sees a mixture. PARTIAL: the data-race "
                 "clause in the C++ memory-model sense is NOT a theorem (no hardware memory model in Lean); it is monitored by K4 (free-running threads "
                 "under ThreadSanitizer, guard off). One race is a genuine open finding (F8: unsynchronised read of the lock-array list vs append) and "
                 "is reported as KNOWN-FINDING; any other ThreadSanitizer report is a violation.",
@@ -159,7 +169,9 @@ CLAIMS = [
                 "Props/C06Conc.lean: schedules of ordinary critical sections (any calls, any stale data) AND whole locked sections (lock_table, any "
                 "operations through the locked_table, unlock — one atomic step, justified by the ownership theorems): locked_section_atomic, "
                 "locked_section_ends_unlocked, conc_with_sections_linearizable — every such interleaving is linearizable, each section a contiguous "
-                "block answering as the sequential specification, later operations starting from exactly the map it left. K2 locked-section streams "
+                "block answering as the sequential specification, later operations starting from exactly the map it left. Props/C01Red.lean mechanises the step "
+                "from ownership to atomicity at the level of single data accesses: a locked section is one hold, and every hold is one atomic episode of the serial "
+                "execution (episodes_serializable, episode_is_one_hold; tr2 example: lock_all, writes, append, writes, release). K2 locked-section streams "
                 "(lock probes of every array after lock / unlock / move assignment of a locked_table onto an active one) belong to this check too.",
         "design_ref": "DESIGN.md 6/C06, 12",
         "note": "Trusted as for C01.",
